@@ -8,7 +8,7 @@
 //!  (c) connections that are open (created, not dropped, not handed to shutdown) never exceed the
 //!      configured limit at any quiescent point.
 
-use crate::exec::{BodyOut, Consumer, Fault, Obs, ReqOut, ReqSpec, Scen};
+use crate::exec::{BodyOut, Consumer, Fault, Interim, Obs, ReqOut, ReqSpec, Scen};
 use crate::framing::{build, Kind, Leftover, Resp, STALE_TAG_BASE};
 use mc_core::report::Violation;
 use serde_json::{json, Value};
@@ -98,7 +98,9 @@ pub fn check(sc: &Scen, obs: &Obs) -> Vec<Violation> {
         let kind = r.kind;
         let describe = || {
             format!(
-                "request {j} ({} / consumer {} / {} / leftover {:?}; server delivered {} of {} framed bytes)",
+                "request {j} ({}{} {} / consumer {} / {} / leftover {:?}; server delivered {} of {} framed bytes)",
+                spec.kind.label(),
+                spec.interim.label(),
                 spec.framing.label(),
                 spec.consumer.label(),
                 region(spec, r),
@@ -123,6 +125,9 @@ pub fn check(sc: &Scen, obs: &Obs) -> Vec<Violation> {
                 if !own {
                     let how = match tag.as_deref().and_then(|t| t.parse::<usize>().ok()) {
                         Some(t) if t >= STALE_TAG_BASE => "leftover-of-earlier-exchange",
+                        Some(t) if t < sc.reqs.len() && sc.reqs[t].interim != Interim::None && !sc.reqs[t].kind.expects() => {
+                            "final-response-of-earlier-request-after-interim"
+                        }
                         Some(_) => "response-of-another-request",
                         None => "untagged-bytes",
                     };
@@ -134,6 +139,17 @@ pub fn check(sc: &Scen, obs: &Obs) -> Vec<Violation> {
                     continue;
                 }
                 if *status != r.status {
+                    if (100..200).contains(status) {
+                        // RFC 7231 6.2: a client must be able to parse 1xx responses received
+                        // prior to the final response; handing the interim head out as THE
+                        // response means the framed body of the final response is never delivered
+                        out.push(viol(
+                            "a",
+                            "interim-response-delivered-as-final".into(),
+                            format!("{}: the interim {} response was handed out as the final response (empty body); the final {} response and its framed body were not delivered", describe(), status, r.status),
+                        ));
+                        continue;
+                    }
                     out.push(viol("a", "wrong-status".into(), format!("{}: status {} instead of {}", describe(), status, r.status)));
                 }
                 let success = |b: &Vec<u8>, out: &mut Vec<Violation>| {
@@ -158,6 +174,12 @@ pub fn check(sc: &Scen, obs: &Obs) -> Vec<Violation> {
                                 b.len(),
                                 mc_core::show_short(b, 40)
                             ),
+                        ));
+                    } else if b.is_empty() && !r.body.is_empty() && spec.framing.has_upgrade_header() {
+                        out.push(viol(
+                            "a",
+                            "body-ignored:response-with-upgrade-websocket-header".into(),
+                            format!("{}: the response carries `upgrade: websocket` and a Content-Length body of {} bytes; the body was not delivered (empty success)", describe(), r.body.len()),
                         ));
                     } else if *b != r.body {
                         out.push(viol(
@@ -214,6 +236,10 @@ pub fn check(sc: &Scen, obs: &Obs) -> Vec<Violation> {
                 out.push(viol("b", format!("reuse:non-persistent:{why}"), format!("{ctx}: that exchange did not leave a persistent connection ({why})")));
             } else if !read_to_end(&obs.outs[p], rp, complete_p, p) {
                 let how = match &obs.outs[p] {
+                    ReqOut::Head { status, .. } if (100..200).contains(status) => "interim-taken-as-final",
+                    ReqOut::Head { body: BodyOut::Ok(b), .. } if b.is_empty() && sc.reqs[p].framing.has_upgrade_header() && complete_p => {
+                        "body-ignored-upgrade-websocket-header"
+                    }
                     ReqOut::Head { body: BodyOut::Dropped, .. } => "dropped-after-head",
                     ReqOut::Head { body: BodyOut::Partial(_), .. } => "dropped-after-partial-read",
                     ReqOut::Head { body: BodyOut::Err { .. }, .. } => "body-error",
@@ -272,6 +298,15 @@ pub fn tally(sc: &Scen, obs: &Obs) {
             }
         }
     }
+    for reqs in &obs.conn_reqs {
+        for m in 1..reqs.len() {
+            if let Some(p) = sc.reqs.get(reqs[m - 1]) {
+                if p.kind.expects() && p.interim == Interim::None {
+                    crate::REUSE_AFTER_UNSENT_BODY.fetch_add(1, Relaxed);
+                }
+            }
+        }
+    }
     if obs.max_open_strict > sc.limit {
         crate::CLOSING_BEYOND_LIMIT.fetch_add(1, Relaxed);
     }
@@ -286,7 +321,9 @@ pub fn canonical(sc: &Scen, obs: &Obs) -> String {
         let r = build(spec.framing, j, spec.leftover);
         let sv = &obs.served[j];
         s.push_str(&format!(
-            "[{}:{}:{}:{:?}:{}:c{:?}o{}]",
+            "[{}{}:{}:{}:{}:{:?}:{}:c{:?}o{}]",
+            spec.kind.label(),
+            spec.interim.label(),
             spec.framing.label(),
             spec.consumer.label(),
             region(spec, &r),
@@ -302,6 +339,7 @@ pub fn canonical(sc: &Scen, obs: &Obs) -> String {
 
 pub fn nontrivial(sc: &Scen, deviations: u32) -> bool {
     deviations > 0
+        || sc.reqs.iter().any(|r| r.interim != Interim::None)
         || sc.reqs.len() > 1
         || sc.reqs.iter().any(|r| r.fault != Fault::None || r.leftover != Leftover::None)
 }
@@ -324,6 +362,8 @@ pub fn summary(sc: &Scen, obs: &Obs) -> Value {
             };
             json!({
                 "request": j,
+                "request_kind": spec.kind.label(),
+                "server_interim": format!("{:?}", spec.interim),
                 "framing": spec.framing.label(),
                 "consumer": spec.consumer.label(),
                 "fault": region(spec, &r),
